@@ -603,9 +603,11 @@ class StructureSimilarity(object):
             xyz_decoy_B, xyz_ref_B = self.get_identical_atoms(
                 sql_decoy, sql_ref, chain2, **kwargs)
 
-        # detect which chain is the longest
-        nA, nB = len(xyz_decoy_A), len(xyz_decoy_B)
-        if nA > nB:
+        # detect which chain is the longest with the rule of compute_lzone:
+        # number of atoms in the reference, first chain if equal
+        nA = len(sql_ref.get('x,y,z', chainID=chain1))
+        nB = len(sql_ref.get('x,y,z', chainID=chain2))
+        if nA >= nB:
             xyz_decoy_long = xyz_decoy_A
             xyz_ref_long = xyz_ref_A
 
